@@ -660,8 +660,15 @@ def check_C11(tier, seed):
     t0 = time.time()
     res = Result("C11")
     known = lib.load_findings("C11")
-    consts = ["MaxComps = 3", "Rich = %s" % ("TRUE" if tier == "thorough" else "FALSE")]
+    consts = ["MaxComps = 3", "Rich = FALSE"]
     _, scns, st = lib.generate("MC_Legal", consts, ["Export"], workers=4)
+    if tier == "thorough":
+        # the rich palette (13 component types, every fault at every size) with up to two components in addition
+        _, more, st2 = lib.generate("MC_Legal", ["MaxComps = 2", "Rich = TRUE"], ["Export"], workers=4)
+        for s in more:
+            s["id"] = len(scns) + 1
+            scns.append(s)
+        st = {k: st[k] + st2[k] if isinstance(st[k], (int, float)) else st[k] for k in st}
     res.states += st["distinct"]
     res.transitions += st["states"]
     verdicts = {True: 0, False: 0}
